@@ -1,288 +1,14 @@
-import Bardolph.Proofs.SimStmts
+import Bardolph.Proofs.SimIter
 /-!
-Loops for the simulation theorem C01: counting (`repeat n`), the loop frame, the layout of an
-assembled loop, and the iteration lemmas for `repeat while` / `repeat` / `repeat n`.
+Loops for the simulation theorem C01: the layout of an assembled loop, and the iteration lemmas
+for `repeat while` / `repeat` / `repeat n` and the index-variable forms.
 -/
 namespace Bardolph
 namespace Sim
 open Vm VmSteps Sem Gen
 
-/-! ## counting -/
-
-/-- number of passes of `repeat n`: as long as the remaining count is positive -/
-def passes (n : Rat) : Nat := if n ≤ 0 then 0 else n.ceil.toNat
-
-theorem passes_nonpos (q : Rat) (h : ¬ 0 < q) : passes q = 0 := by
-  have : q ≤ 0 := Rat.not_lt.mp h
-  simp [passes, this]
-
-theorem passes_pos (q : Rat) (h : 0 < q) : passes q = passes (q - 1) + 1 := by
-  have hq : ¬ q ≤ 0 := Rat.not_le.mpr h
-  have hc : 0 < q.ceil := by
-    have := (Rat.lt_ceil_iff (x := q) (y := 0)).2 (by simpa using h)
-    exact this
-  simp only [passes, hq, if_false, Rat.ceil_sub_one]
-  by_cases h1 : q - 1 ≤ 0
-  · simp only [h1, if_true]
-    have : q.ceil ≤ 1 := Rat.ceil_le_iff.2 (by
-      have : q ≤ 1 := by grind
-      simpa using this)
-    omega
-  · simp only [h1, if_false]
-    omega
-
-theorem tri_gt (q : Rat) :
-    ((if q < 0 then Ordering.lt else if q == 0 then .eq else .gt) == .gt) = decide (0 < q) := by
-  by_cases hlt : q < 0
-  · have : ¬ 0 < q := by grind
-    simp [hlt, this]
-  · by_cases heq : q = 0
-    · subst heq; simp
-    · have : 0 < q := by grind
-      simp [hlt, heq, this]
-
-/-- the test `counter > 0` on a numeric counter -/
-theorem cmp_gt_zero (cnt : Val) (q : Rat) (fl : Bool) (h : cnt.asNum = some (q, fl)) :
-    binVal .gt cnt (.int 0) = some (.bool (decide (0 < q))) := by
-  cases cnt with
-  | int i =>
-    simp only [Val.asNum, Option.some.injEq, Prod.mk.injEq] at h
-    obtain ⟨rfl, rfl⟩ := h
-    simp only [binVal, binOp, Val.cmp, Val.asNum]
-    rw [show ((0 : Int) : Rat) = 0 from rfl, tri_gt]
-  | num r =>
-    simp only [Val.asNum, Option.some.injEq, Prod.mk.injEq] at h
-    obtain ⟨rfl, rfl⟩ := h
-    simp only [binVal, binOp, Val.cmp, Val.asNum]
-    rw [show ((0 : Int) : Rat) = 0 from rfl, tri_gt]
-  | bool b =>
-    simp only [Val.asNum, Option.some.injEq, Prod.mk.injEq] at h
-    obtain ⟨rfl, rfl⟩ := h
-    simp only [binVal, binOp, Val.cmp, Val.asNum]
-    rw [show ((0 : Int) : Rat) = 0 from rfl, tri_gt]
-  | _ => simp [Val.asNum] at h
-
-/-- `counter - 1` on a numeric counter is the numeric counter one less -/
-theorem sub_one_num (cnt : Val) (q : Rat) (fl : Bool) (h : cnt.asNum = some (q, fl)) :
-    ∃ c' fl', binVal .sub cnt (.int 1) = some c' ∧ c'.asNum = some (q - 1, fl') := by
-  have h1 : (Val.int 1).asNum = some (1, false) := by simp [Val.asNum]
-  simp only [binVal, binOp, Val.sub, h, h1, Bool.or_false]
-  cases cnt with
-  | int i =>
-    simp only [Val.asNum, Option.some.injEq, Prod.mk.injEq] at h
-    obtain ⟨rfl, rfl⟩ := h
-    refine ⟨_, false, rfl, ?_⟩
-    have : ((i : Rat) - 1) = ((i - 1 : Int) : Rat) := by simp [Rat.intCast_sub]
-    simp only [Val.mkNum, Bool.false_eq_true, if_false, Val.asNum, this, Rat.num_intCast]
-  | num r =>
-    simp only [Val.asNum, Option.some.injEq, Prod.mk.injEq] at h
-    obtain ⟨rfl, rfl⟩ := h
-    exact ⟨_, true, rfl, by simp [Val.mkNum, Val.asNum]⟩
-  | bool b =>
-    simp only [Val.asNum, Option.some.injEq, Prod.mk.injEq] at h
-    obtain ⟨rfl, rfl⟩ := h
-    refine ⟨_, false, rfl, ?_⟩
-    cases b
-    · have : ((0 : Rat) - 1) = ((-1 : Int) : Rat) := by decide +kernel
-      simp only [Bool.false_eq_true, if_false, Val.mkNum, Val.asNum, this, Rat.num_intCast]
-    · have : ((1 : Rat) - 1) = ((0 : Int) : Rat) := by decide +kernel
-      simp only [if_true, Val.mkNum, Bool.false_eq_true, if_false, Val.asNum, this, Rat.num_intCast]
-  | _ => simp [Val.asNum] at h
-
-
-/-! ## loop frames -/
-
-variable {img : Image} {K : Ctx} {stk : List Frame} {un : List Val} {σ : S} {s : State} {pc : Nat}
-
-def putVar (vars : List (LoopVar × Val)) (l : LoopVar) (v : Val) : List (LoopVar × Val) :=
-  if vars.any (·.1 == l) then vars.map fun (k, x) => if k == l then (k, v) else (k, x)
-  else vars ++ [(l, v)]
-
-def getVar (vars : List (LoopVar × Val)) (l : LoopVar) : Val :=
-  ((vars.find? (·.1 == l)).map (·.2)).getD .none
-
-theorem getVar_map (vars : List (LoopVar × Val)) (l : LoopVar) (v : Val)
-    (h : vars.any (·.1 == l) = true) :
-    getVar (vars.map fun (k, x) => if k == l then (k, v) else (k, x)) l = v := by
-  induction vars with
-  | nil => simp at h
-  | cons p rest ih =>
-    obtain ⟨k, x⟩ := p
-    by_cases hk : k = l
-    · subst hk
-      simp [getVar]
-    · have hk' : (k == l) = false := by simpa using hk
-      have h' : rest.any (·.1 == l) = true := by simpa [hk'] using h
-      have := ih h'
-      unfold getVar at this ⊢
-      rw [List.map_cons]
-      simp only [hk', Bool.false_eq_true, if_false]
-      rw [List.find?_cons]
-      simp only [hk']
-      exact this
-
-theorem getVar_append (vars : List (LoopVar × Val)) (l : LoopVar) (v : Val)
-    (h : vars.any (·.1 == l) = false) : getVar (vars ++ [(l, v)]) l = v := by
-  induction vars with
-  | nil => simp [getVar]
-  | cons p rest ih =>
-    obtain ⟨k, x⟩ := p
-    simp only [List.any_cons, Bool.or_eq_false_iff] at h
-    have := ih h.2
-    unfold getVar at this ⊢
-    rw [List.cons_append, List.find?_cons]
-    simp only [h.1]
-    exact this
-
-theorem getVar_putVar (vars : List (LoopVar × Val)) (l : LoopVar) (v : Val) :
-    getVar (putVar vars l v) l = v := by
-  unfold putVar
-  split
-  · rename_i h; exact getVar_map vars l v h
-  · rename_i h; exact getVar_append vars l v (Bool.eq_false_iff.mpr h)
-
-theorem SimU.setStack (h : SimU K stk un σ s) (stk' : List Frame) (hl : LoopsOnly stk') :
-    SimU K stk' un σ { s with stack := stk' ++ baseOf K σ.locals } :=
-  ⟨h.running, rfl, hl, h.eval, h.unnamed, h.locals, h.status, h.globals, h.constants,
-    h.lights, h.trace, h.defaultColor, h.matrix, h.draws, h.regs⟩
-
-theorem loopsOnly_cons (vars : List (LoopVar × Val)) (ht : Nat) (hl : LoopsOnly stk) :
-    LoopsOnly (.loop vars ht :: stk) := by
-  intro f hf
-  simp only [List.mem_cons] at hf
-  rcases hf with rfl | hf
-  · rfl
-  · exact hl f hf
-
-/-- `LOOP`: a fresh loop frame -/
-theorem exec_loop (h : SimU K stk un σ s) (hpc : s.pc = (pc : Int)) (hi : img.code[pc]? = some .loop) :
-    Exec img s (At K (pc + 1) (.loop [] 0 :: stk) un σ) := by
-  apply Exec.step h.running
-  apply Exec.done
-  rw [step_eq _ { s with stack := (.loop [] 0 :: stk) ++ baseOf K σ.locals } h.running hpc hi rfl
-    (by simp only [execInstr, h.eval, h.stack, List.length_nil, List.cons_append]) h.running]
-  refine ⟨?_, (h.setStack _ (loopsOnly_cons [] 0 h.loops)).setPc _⟩
-  show s.pc + 1 = _
-  rw [hpc]; omega
-
-/-- `END_LOOP`: the frame is dropped -/
-theorem exec_endLoop (vars : List (LoopVar × Val)) (ht : Nat) (h : SimU K (.loop vars ht :: stk) un σ s)
-    (hpc : s.pc = (pc : Int)) (hi : img.code[pc]? = some .endLoop) :
-    Exec img s (At K (pc + 1) stk un σ) := by
-  apply Exec.step h.running
-  apply Exec.done
-  rw [step_eq _ { s with stack := stk ++ baseOf K σ.locals } h.running hpc hi rfl
-    (by simp only [execInstr, h.stack, h.eval, trimEval, List.drop_nil, List.cons_append]) h.running]
-  refine ⟨?_, (h.setStack _ h.loops.cons.2).setPc _⟩
-  show s.pc + 1 = _
-  rw [hpc]; omega
-
-/-- a store into a loop variable of the innermost loop -/
-theorem putLoopVar_top (vars : List (LoopVar × Val)) (ht : Nat) (h : s.stack = .loop vars ht :: stk)
-    (l : LoopVar) (v : Val) :
-    s.putLoopVar l v = { s with stack := .loop (putVar vars l v) ht :: stk } := by
-  simp only [State.putLoopVar, h, putVar]
-
-theorem getLoopVar_top (vars : List (LoopVar × Val)) (ht : Nat) (h : s.stack = .loop vars ht :: stk)
-    (l : LoopVar) : s.getLoopVar l = getVar vars l := by
-  simp only [State.getLoopVar, h, getVar]
-
-
-theorem Exec.next {img : Image} {s t : State} {P : State → Prop} (hs : s.status = .running)
-    (e : Vm.step img s = t) (h : Exec img t P) : Exec img s P :=
-  Exec.step hs (e ▸ h)
-
-theorem step_popResult (img : Image) (s : State) (pc : Nat) (v : Val) (rest : List Val)
-    (hs : s.status = .running) (hpc : s.pc = (pc : Int))
-    (hi : img.code[pc]? = some (.pop result)) (hev : s.eval = v :: rest) :
-    Vm.step img s = { s with pc := (pc : Int) + 1, eval := rest,
-                             regs := fun r => if r = .result then v else s.regs r } := by
-  rw [step_pop img s pc result v rest hs hpc hi hev]
-  simp only [result, State.put, State.setReg]
-  rw [if_pos (by exact hs)]
-  apply State.ext' <;> first | rfl | (simp [hpc])
-
-theorem step_popCounter (img : Image) (s : State) (pc : Nat) (v : Val) (rest : List Val)
-    (vars : List (LoopVar × Val)) (ht : Nat) (stk : List Frame)
-    (hs : s.status = .running) (hpc : s.pc = (pc : Int))
-    (hi : img.code[pc]? = some (.pop counter)) (hev : s.eval = v :: rest)
-    (hst : s.stack = .loop vars ht :: stk) :
-    Vm.step img s = { s with pc := (pc : Int) + 1, eval := rest,
-                             stack := .loop (putVar vars .counter v) ht :: stk } := by
-  rw [step_pop img s pc counter v rest hs hpc hi hev]
-  have : ({ s with eval := rest } : State).put counter v =
-      { s with eval := rest, stack := .loop (putVar vars .counter v) ht :: stk } := by
-    simp only [counter, State.put]
-    exact putLoopVar_top (s := { s with eval := rest }) vars ht hst _ _
-  rw [this, if_pos (by exact hs)]
-  apply State.ext' <;> first | rfl | (simp [hpc])
-
-/-- `counter > 0` into `result` -/
-theorem exec_counterTest (vars : List (LoopVar × Val)) (ht : Nat) (cnt : Val) (q : Rat) (fl : Bool)
-    (h : SimU K (.loop vars ht :: stk) un σ s) (hpc : s.pc = (pc : Int))
-    (hc : CodeAt img pc counterTest) (hcnt : getVar vars .counter = cnt)
-    (hnum : cnt.asNum = some (q, fl)) :
-    Exec img s (fun t => At K (pc + 4) (.loop vars ht :: stk) un σ t ∧
-      t.regs .result = .bool (decide (0 < q))) := by
-  have hne : cnt = .none → False := by rintro rfl; simp [Val.asNum] at hnum
-  simp only [counterTest, testOp] at hc
-  have hrd : s.read (.loopVar .counter) = cnt := by
-    simp only [State.read, getLoopVar_top vars ht h.stack, hcnt]
-  refine Exec.next h.running (step_push img s pc _ cnt h.running hpc hc.head (by simp) hrd hne) ?_
-  refine Exec.next (by exact h.running)
-    (step_pushq img _ (pc + 1) _ (by exact h.running) rfl hc.tail.head) ?_
-  refine Exec.next (by exact h.running)
-    (step_binop img _ (pc + 1 + 1) .gt cnt (.int 0) _ s.eval (by exact h.running) rfl
-      hc.tail.tail.head rfl (cmp_gt_zero cnt q fl hnum)) ?_
-  refine Exec.next (by exact h.running)
-    (step_popResult img _ (pc + 1 + 1 + 1) _ s.eval (by exact h.running) rfl
-      hc.tail.tail.tail.head rfl) ?_
-  apply Exec.done
-  refine ⟨⟨rfl, ?_⟩, by simp⟩
-  exact ⟨h.running, h.stack, h.loops, h.eval, h.unnamed, h.locals, h.status, h.globals, h.constants,
-    h.lights, h.trace, h.defaultColor, h.matrix, h.draws, fun r hr => by
-      simp only [if_neg hr]; exact h.regs r hr⟩
-
-/-- `counter := counter - 1` -/
-theorem exec_loopPost (vars : List (LoopVar × Val)) (ht : Nat) (cnt c' : Val)
-    (h : SimU K (.loop vars ht :: stk) un σ s) (hpc : s.pc = (pc : Int))
-    (hc : CodeAt img pc (loopPost none)) (hcnt : getVar vars .counter = cnt)
-    (hne : cnt = .none → False) (hsub : binVal .sub cnt (.int 1) = some c') :
-    Exec img s (At K (pc + 4) (.loop (putVar vars .counter c') ht :: stk) un σ) := by
-  simp only [loopPost, List.append_nil] at hc
-  have hrd : s.read (.loopVar .counter) = cnt := by
-    simp only [State.read, getLoopVar_top vars ht h.stack, hcnt]
-  refine Exec.next h.running (step_push img s pc _ cnt h.running hpc hc.head (by simp) hrd hne) ?_
-  refine Exec.next (by exact h.running)
-    (step_pushq img _ (pc + 1) _ (by exact h.running) rfl hc.tail.head) ?_
-  refine Exec.next (by exact h.running)
-    (step_binop img _ (pc + 1 + 1) .sub cnt (.int 1) c' s.eval (by exact h.running) rfl
-      hc.tail.tail.head rfl hsub) ?_
-  refine Exec.next (by exact h.running)
-    (step_popCounter img _ (pc + 1 + 1 + 1) c' s.eval vars ht (stk ++ baseOf K σ.locals)
-      (by exact h.running) rfl hc.tail.tail.tail.head rfl (by exact h.stack)) ?_
-  apply Exec.done
-  refine ⟨rfl, ?_⟩
-  exact ⟨h.running, rfl, loopsOnly_cons _ _ h.loops.cons.2, h.eval, h.unnamed, h.locals, h.status,
-    h.globals, h.constants, h.lights, h.trace, h.defaultColor, h.matrix, h.draws, h.regs⟩
-
-/-- `repeat n`: the count goes into the loop frame -/
-theorem exec_toCounter (v : Rv) (hv : RvOK v) (vars : List (LoopVar × Val)) (ht : Nat)
-    (h : SimU K (.loop vars ht :: stk) un σ s) (hpc : s.pc = (pc : Int))
-    (hc : CodeAt img pc (genRv v (.to counter)))
-    {f : Nat} {x : Val} {σ' : S} (hev : evalRv f v σ = .ok (x, σ')) :
-    σ' = σ ∧ Exec img s (At K (pc + (genRv v (.to counter)).length)
-      (.loop (putVar vars .counter x) ht :: stk) un σ) := by
-  have hput : s.put counter x =
-      { s with stack := (.loop (putVar vars .counter x) ht :: stk) ++ baseOf K σ.locals } := by
-    simp only [counter, State.put]
-    exact putLoopVar_top (stk := stk ++ baseOf K σ.locals) vars ht h.stack _ _
-  obtain ⟨rfl, hrun⟩ := run_genRv v hv counter (by simp [counter]) h hpc hc hev
-    (by rw [hput]; exact h.running)
-  refine ⟨rfl, Exec.of_run _ hrun ⟨rfl, ?_⟩⟩
-  rw [hput]
-  exact (h.setStack _ (loopsOnly_cons _ _ h.loops.cons.2)).setPc _
-
+variable {V : String → Prop}
+variable {img : Image} {K : Ctx} {stk : Stk} {un : List Val} {σ : S} {s : State} {pc : Nat}
 
 /-! ## the shape of a loop -/
 
@@ -350,24 +76,35 @@ theorem execWhile_succ (f : Nat) (c : Option Rv) (body : Block) (σ : S) :
       | .ok (true, s1) => loopBody (execBlock f body s1) fun s2 => execWhile f c body s2 := by
   cases c <;> simp only [execWhile, semTest] <;> rfl
 
+/-- the end of a pass that ran to its end: the increment is added to the index variable -/
+def stepIdx (ix : Option (String × Val)) (s2 : S) (K : S → Outcome × S) : Outcome × S :=
+  match ix with
+  | none => K s2
+  | some (v, incr) =>
+    match Vm.binOp .add (s2.lookup v) incr with
+    | some x => K (s2.assign v x)
+    | none => (.fault "arithmetic error", s2)
+
 theorem execPasses_succ (f : Nat) (binds : List (String × Val)) (rest : List (List (String × Val)))
-    (body : Block) (σ : S) :
-    execPasses (f + 1) (binds :: rest) body σ =
+    (ix : Option (String × Val)) (body : Block) (σ : S) :
+    execPasses (f + 1) (binds :: rest) ix body σ =
       loopBody (execBlock f body (binds.foldl (fun st (n, v) => st.assign n v) σ))
-        fun s2 => execPasses f rest body s2 := by
+        fun s2 => stepIdx ix s2 fun s3 => execPasses f rest ix body s3 := by
   simp only [execPasses]
-  rfl
+  cases ix with
+  | none => rfl
+  | some p => obtain ⟨v, incr⟩ := p; rfl
 
 
 def testCode : Option Rv → List Instr
   | none => [.moveq (.bool true) result]
   | some c => genRv c (.to result)
 
-def CondOK : Option Rv → Prop
+def CondOK (V : String → Prop) : Option Rv → Prop
   | none => True
-  | some c => RvOK c
+  | some c => RvC V c
 
-theorem semTest_error {c : Option Rv} (hc : CondOK c) (f : Nat) (σ : S) (o : Outcome)
+theorem semTest_error {c : Option Rv} (f : Nat) (σ : S) (o : Outcome)
     (h : semTest f c σ = .error o) : o ≠ .normal ∧ o ≠ .brk ∧ o ≠ .ret := by
   cases c with
   | none => simp [semTest] at h
@@ -377,19 +114,19 @@ theorem semTest_error {c : Option Rv} (hc : CondOK c) (f : Nat) (σ : S) (o : Ou
     · simp at h
     · rename_i o' he
       simp at h; subst h
-      exact evalRv_error hc f σ _ he
+      exact evalRvC_error he
 
 /-- the test of a `while` loop: the truth of the condition goes to `result` -/
-theorem exec_test {stk : List Frame} {σ : S} {s : State} {pc : Nat} (c : Option Rv) (hcnd : CondOK c)
+theorem exec_test {stk : Stk} {σ : S} {s : State} {pc : Nat} {f : Nat} (ihRv : RvToGoal V img K f)
+    (c : Option Rv) (hcnd : CondOK V c)
     (h : Sim K stk σ s) (hpc : s.pc = (pc : Int)) (hc : CodeAt img pc (testCode c))
-    {f : Nat} {b : Bool} {σ' : S} (hev : semTest f c σ = .ok (b, σ')) :
-    σ' = σ ∧ Exec img s (fun t => At K (pc + (testCode c).length) stk [] σ t ∧
+    {b : Bool} {σ' : S} (hev : semTest f c σ = .ok (b, σ')) :
+    Exec img s (fun t => At K (pc + (testCode c).length) stk [] σ' t ∧
       (t.regs .result).truthy = b) := by
   cases c with
   | none =>
     simp only [semTest, Except.ok.injEq, Prod.mk.injEq] at hev
     obtain ⟨rfl, rfl⟩ := hev
-    refine ⟨rfl, ?_⟩
     simp only [testCode] at hc ⊢
     apply Exec.step h.running
     apply Exec.done
@@ -404,16 +141,15 @@ theorem exec_test {stk : List Frame} {σ : S} {s : State} {pc : Nat} (c : Option
     · rename_i v s' he
       simp only [Except.ok.injEq, Prod.mk.injEq] at hev
       obtain ⟨rfl, rfl⟩ := hev
-      obtain ⟨rfl, hex⟩ := exec_toResult rv hcnd h hpc hc he
-      exact ⟨rfl, hex.mono fun t ⟨ht, hres⟩ => ⟨ht, by rw [hres]⟩⟩
+      exact (rv_toResult ihRv rv hcnd h hpc hc he).mono fun t ⟨ht, hres⟩ => ⟨ht, by rw [hres]⟩
     · simp at hev
 
 /-- `repeat while c` / `repeat`: from the test on, with the loop frame in place -/
-def WhileIter (img : Image) (K : Ctx) (f : Nat) : Prop :=
-  ∀ (c : Option Rv) (body : Block), CondOK c → FragBlock body →
-  ∀ (σ σ' : S) (o : Outcome) (s : State) (top : Nat) (stk : List Frame)
-    (vars : List (LoopVar × Val)) (ht : Nat) (off : Int),
-    Sim K (.loop vars ht :: stk) σ s → s.pc = (top : Int) →
+def WhileIter (V : String → Prop) (img : Image) (K : Ctx) (f : Nat) : Prop :=
+  ∀ (c : Option Rv) (body : Block), CondOK V c → FragBlock V body →
+  ∀ (σ σ' : S) (o : Outcome) (s : State) (top : Nat) (stk : Stk)
+    (vars : List (LoopVar × Val)) (extra : List Val) (off : Int),
+    Sim K (stk.inner vars extra) σ s → s.pc = (top : Int) →
     CodeAt img top (testCode c ++ [.jump .ifFalse (((genBlock body).length : Nat) + 2)] ++
       resolve (genBlock body) (top + (testCode c).length + 1)
         ((top + (testCode c).length + 1 + (genBlock body).length + 1 : Nat) : Int) ++
@@ -423,13 +159,14 @@ def WhileIter (img : Image) (K : Ctx) (f : Nat) : Prop :=
     o = .normal ∧
       Exec img s (At K (top + (testCode c).length + 1 + (genBlock body).length + 1 + 1) stk [] σ')
 
-theorem while_zero : WhileIter img K 0 := by
-  intro c body _ _ σ σ' o s top stk vars ht off _ _ _ _ h ho
+theorem while_zero : WhileIter V img K 0 := by
+  intro c body _ _ σ σ' o s top stk vars extra off _ _ _ _ h ho
   simp only [execWhile, Prod.mk.injEq] at h
   rcases ho with rfl | rfl <;> simp at h
 
-theorem while_step (f : Nat) (ihB : BlockGoal img K f) (ihW : WhileIter img K f) : WhileIter img K (f + 1) := by
-  intro c body hcnd hb σ σ' o s top stk vars ht off sim hpc hc hoff h ho
+theorem while_step (f : Nat) (ihRv : RvToGoal V img K f) (ihB : BlockGoal V img K f)
+    (ihW : WhileIter V img K f) : WhileIter V img K (f + 1) := by
+  intro c body hcnd hb σ σ' o s top stk vars extra off sim hpc hc hoff h ho
   rw [execWhile_succ] at h
   have hct := hc.left.left.left.left
   have hcj := hc.left.left.left.right.head
@@ -441,40 +178,40 @@ theorem while_step (f : Nat) (ihB : BlockGoal img K f) (ihW : WhileIter img K f)
   · rename_i o' he
     simp only [Prod.mk.injEq] at h
     obtain ⟨rfl, rfl⟩ := h
-    have := semTest_error hcnd f σ _ he
+    have := semTest_error f σ _ he
     rcases ho with rfl | rfl <;> simp at this
   · rename_i s1 he
     simp only [Prod.mk.injEq] at h
     obtain ⟨rfl, rfl⟩ := h
-    obtain ⟨rfl, hex⟩ := exec_test c hcnd sim hpc hct he
+    have hex := exec_test ihRv c hcnd sim hpc hct he
     refine ⟨rfl, hex.trans fun t ⟨ht0, hres⟩ => ?_⟩
     refine (exec_jump .ifFalse _ (top + (testCode c).length + 1 + (genBlock body).length + 1)
       (by simp) ht0.2 ht0.1 hcj (by simp [hres]; omega)).trans fun t1 ht1 => ?_
-    exact exec_endLoop vars ht ht1.2 ht1.1 (idx hce)
+    exact exec_endLoop vars extra ht1.2 ht1.1 (idx hce)
   · rename_i s1 he
-    obtain ⟨rfl, hex⟩ := exec_test c hcnd sim hpc hct he
-    have hjmp : ∀ t0, (At K (top + (testCode c).length) (.loop vars ht :: stk) [] s1 t0 ∧
+    have hex := exec_test ihRv c hcnd sim hpc hct he
+    have hjmp : ∀ t0, (At K (top + (testCode c).length) (stk.inner vars extra) [] s1 t0 ∧
         (t0.regs .result).truthy = true) →
-        Exec img t0 (At K (top + (testCode c).length + 1) (.loop vars ht :: stk) [] s1) := by
+        Exec img t0 (At K (top + (testCode c).length + 1) (stk.inner vars extra) [] s1) := by
       intro t0 ⟨ht0, hres⟩
       exact exec_jump .ifFalse _ _ (by simp) ht0.2 ht0.1 hcj (by simp [hres])
     rcases loopBody_cases h ho with ⟨s2, hbody, hrest⟩ | ⟨hbody, rfl⟩
     · have hback : ∀ t2, At K (top + (testCode c).length + 1 + (genBlock body).length)
-          (.loop vars ht :: stk) [] s2 t2 → Exec img t2 (At K top (.loop vars ht :: stk) [] s2) := by
+          (stk.inner vars extra) [] s2 t2 → Exec img t2 (At K top (stk.inner vars extra) [] s2) := by
         intro t2 ht2
         exact exec_jump .always off top (by simp) ht2.2 ht2.1 (idx hcjb) (by simpa using hoff)
-      have hbodyEx : ∀ t1, At K (top + (testCode c).length + 1) (.loop vars ht :: stk) [] s1 t1 →
+      have hbodyEx : ∀ t1, At K (top + (testCode c).length + 1) (stk.inner vars extra) [] s1 t1 →
           Exec img t1 (At K (top + (testCode c).length + 1 + (genBlock body).length)
-            (.loop vars ht :: stk) [] s2) := by
+            (stk.inner vars extra) [] s2) := by
         intro t1 ht1
         exact ihB body hb s1 s2 .normal t1 _ _ _ ht1.2 ht1.1 (cat hcb) hbody (Or.inl rfl)
       -- the rest of the loop, from the test again
-      have hrestEx : ∀ t3, At K top (.loop vars ht :: stk) [] s2 t3 →
+      have hrestEx : ∀ t3, At K top (stk.inner vars extra) [] s2 t3 →
           o = .normal ∧ Exec img t3
             (At K (top + (testCode c).length + 1 + (genBlock body).length + 1 + 1) stk [] σ') := by
         intro t3 ht3
-        exact ihW c body hcnd hb s2 σ' o t3 top stk vars ht off ht3.2 ht3.1 hc hoff hrest ho
-      obtain ⟨t3, ht3⟩ : ∃ t3, At K top (.loop vars ht :: stk) [] s2 t3 := by
+        exact ihW c body hcnd hb s2 σ' o t3 top stk vars extra off ht3.2 ht3.1 hc hoff hrest ho
+      obtain ⟨t3, ht3⟩ : ∃ t3, At K top (stk.inner vars extra) [] s2 t3 := by
         obtain ⟨k, hk⟩ := ((hex.trans hjmp).trans hbodyEx).trans hback
         exact ⟨_, hk⟩
       refine ⟨(hrestEx t3 ht3).1, ?_⟩
@@ -484,93 +221,238 @@ theorem while_step (f : Nat) (ihB : BlockGoal img K f) (ihW : WhileIter img K f)
       refine (ihB body hb s1 σ' .brk t1 _ _ _ ht1.2 ht1.1 (cat hcb) hbody (Or.inr rfl)).trans
         fun t2 ht2 => ?_
       simp only [Target] at ht2
-      exact exec_endLoop vars ht ht2.2 (pc := top + (testCode c).length + 1 + (genBlock body).length + 1)
+      exact exec_endLoop vars extra ht2.2 (pc := top + (testCode c).length + 1 + (genBlock body).length + 1)
         (by rw [ht2.1]) (idx hce)
 
 
-/-- `repeat n`: from the test on, with the counter in the loop frame -/
-def CountIter (img : Image) (K : Ctx) (f : Nat) : Prop :=
-  ∀ (body : Block), FragBlock body →
-  ∀ (σ σ' : S) (o : Outcome) (s : State) (top : Nat) (stk : List Frame)
-    (vars : List (LoopVar × Val)) (ht : Nat) (cnt : Val) (q : Rat) (fl : Bool) (off : Int),
-    Sim K (.loop vars ht :: stk) σ s → s.pc = (top : Int) →
-    getVar vars .counter = cnt → cnt.asNum = some (q, fl) →
-    CodeAt img top (counterTest ++ [.jump .ifFalse (((genBlock body).length + 4 : Nat) + 2)] ++
-      (resolve (genBlock body) (top + 5) ((top + 5 + (genBlock body).length + 4 + 1 : Nat) : Int) ++
-        loopPost none) ++
-      [.jump .always off] ++ [.endLoop]) →
-    ((top + 5 + (genBlock body).length + 4 : Nat) : Int) + off = (top : Int) →
-    execPasses f (List.replicate (passes q) []) body σ = (o, σ') → (o = .normal ∨ o = .brk) →
-    o = .normal ∧ Exec img s (At K (top + 5 + (genBlock body).length + 4 + 1 + 1) stk [] σ')
+/-! ### counted passes, with or without an index variable -/
 
-theorem count_zero : CountIter img K 0 := by
-  intro body _ σ σ' o s top stk vars ht cnt q fl off _ _ _ _ _ _ h ho
+/-- the source-level state after the end of a pass: the increment added to the index variable -/
+def idxNext (ix : Option (String × Val)) (σ : S) : Option S :=
+  match ix with
+  | none => some σ
+  | some (v, incr) => (Vm.binOp .add (σ.lookup v) incr).map fun x => σ.assign v x
+
+theorem stepIdx_cases {ix : Option (String × Val)} {σ2 : S} {Kf : S → Outcome × S} {o : Outcome} {σ' : S}
+    (h : stepIdx ix σ2 Kf = (o, σ')) :
+    (∃ σ3, idxNext ix σ2 = some σ3 ∧ Kf σ3 = (o, σ')) ∨ o = .fault "arithmetic error" := by
+  cases ix with
+  | none => exact Or.inl ⟨σ2, rfl, h⟩
+  | some p =>
+    obtain ⟨v, incr⟩ := p
+    simp only [stepIdx] at h
+    split at h
+    · rename_i x hx
+      exact Or.inl ⟨_, by simp [idxNext, hx], h⟩
+    · simp only [Prod.mk.injEq] at h
+      exact Or.inr h.1.symm
+
+/-- the code at the end of a pass -/
+def postOf (ix : Option (String × Val)) : List Instr := loopPost (ix.map (·.1))
+
+theorem postOf_none : postOf none = loopPost none := rfl
+
+theorem add_some_ne_none {a b d : Val} (h : Val.add a b = some d) : (a = .none → False) ∧ (b = .none → False) := by
+  constructor
+  · rintro rfl; cases b <;> simp [Val.add, Val.asNum] at h
+  · rintro rfl; cases a <;> simp [Val.add, Val.asNum] at h
+
+/-- the end of a pass: the counter goes down by one, the increment is added to the index variable -/
+theorem exec_passEnd {stk : Stk} {s : State} {pc : Nat} (ix : Option (String × Val))
+    (vars : List (LoopVar × Val)) (extra : List Val) (cnt c1 : Val) (σ2 σ3 : S)
+    (h : Sim K (stk.inner vars extra) σ2 s) (hpc : s.pc = (pc : Int)) (hc : CodeAt img pc (postOf ix))
+    (hcnt : getVar vars .counter = cnt) (hne : cnt = .none → False)
+    (hsub : binVal .sub cnt (.int 1) = some c1) (hincr : ∀ p ∈ ix, getVar vars .incr = p.2)
+    (hnext : idxNext ix σ2 = some σ3) :
+    Exec img s (At K (pc + (postOf ix).length) (stk.inner (putVar vars .counter c1) extra) [] σ3) := by
+  cases ix with
+  | none =>
+    simp only [idxNext, Option.some.injEq] at hnext
+    subst hnext
+    exact exec_loopPost vars _ cnt c1 h hpc hc hcnt hne hsub
+  | some p =>
+    obtain ⟨v, incr⟩ := p
+    have hi : getVar vars .incr = incr := hincr (v, incr) rfl
+    simp only [idxNext, Option.map_eq_some_iff] at hnext
+    obtain ⟨x, hadd, rfl⟩ := hnext
+    have hc' : CodeAt img pc ([Instr.push (.loopVar .counter), .pushq (.int 1), .op .sub, .pop counter] ++
+        [Instr.push (.var v), .push (.loopVar .incr), .op .add, .pop (.var v)]) := hc
+    have hnn := add_some_ne_none (show Val.add (σ2.lookup v) incr = some x from hadd)
+    refine (exec_group_lv _ _ .sub .counter cnt (.int 1) c1 h hpc hc'.left
+      (pf_lv h _ .counter cnt hcnt hne) (Loops.pfStep_pushq _ _ _) hsub).trans fun t1 ht1 => ?_
+    have hi1 : getVar (putVar vars .counter c1) .incr = incr := by
+      rw [getVar_putVar_other _ _ _ _ (by decide), hi]
+    exact exec_group_var _ _ .add v (σ2.lookup v) incr x ht1.2 ht1.1 hc'.right
+      (pf_var ht1.2 _ v _ rfl hnn.1) (pf_lv ht1.2 _ .incr incr hi1 hnn.2) hadd
+
+/-! ### what a loop over names adds: the name popped at the start of every pass -/
+
+/-- the instruction at the start of a pass: the next name into the loop's variable -/
+def bodyPreOf (lv : Option String) : List Instr :=
+  match lv with
+  | none => []
+  | some v => [.pop (.var v)]
+
+/-- the source-level bindings of the passes: one pass per element of `names` (for a loop that
+counts, only the length of `names` matters) -/
+def bindOf (lv : Option String) (n : String) : List (String × Val) :=
+  match lv with
+  | none => []
+  | some v => [(v, .str n)]
+
+def bindsOf (lv : Option String) (names : List String) : List (List (String × Val)) :=
+  names.map (bindOf lv)
+
+/-- the names waiting on the evaluation stack -/
+def pendOf (lv : Option String) (names : List String) : List Val :=
+  match lv with
+  | none => []
+  | some _ => names.map .str
+
+/-- the source-level state at the start of a pass -/
+def bindσ (lv : Option String) (n : String) (σ : S) : S :=
+  match lv with
+  | none => σ
+  | some v => σ.assign v (.str n)
+
+theorem bindsOf_cons (lv : Option String) (n : String) (rest : List String) :
+    bindsOf lv (n :: rest) = bindOf lv n :: bindsOf lv rest := rfl
+
+theorem foldl_bind (lv : Option String) (n : String) (σ : S) :
+    (bindOf lv n).foldl (fun st (p : String × Val) =>
+      match p with | (n, v) => st.assign n v) σ = bindσ lv n σ := by
+  cases lv <;> rfl
+
+theorem bindsOf_none (k : Nat) : bindsOf none (List.replicate k "") = List.replicate k [] := by
+  simp [bindsOf, bindOf]
+
+theorem exec_bodyPre {stk : Stk} {σ : S} {s : State} {pc : Nat} (lv : Option String) (n : String)
+    (rest : List String) (vars : List (LoopVar × Val))
+    (h : Sim K (stk.inner vars (pendOf lv (n :: rest))) σ s) (hpc : s.pc = (pc : Int))
+    (hc : CodeAt img pc (bodyPreOf lv)) :
+    Exec img s (At K (pc + (bodyPreOf lv).length) (stk.inner vars (pendOf lv rest)) [] (bindσ lv n σ)) := by
+  cases lv with
+  | none => exact Exec.done ⟨by simpa [bodyPreOf] using hpc, h⟩
+  | some v => exact exec_popVar v (.str n) _ h hpc hc.head
+
+/-- a counted loop (`repeat n`, `repeat [n] with v …`, the loops over names): from the test on,
+with the counter — and the increment of the index variable `ix`, if there is one — in the loop
+frame, and the names still to visit (`names`, for a loop with a light variable `lv`) on the
+evaluation stack -/
+def CountIter (V : String → Prop) (img : Image) (K : Ctx) (f : Nat) : Prop :=
+  ∀ (body : Block), FragBlock V body → ∀ (lv : Option String) (ix : Option (String × Val))
+    (names : List String) (σ σ' : S) (o : Outcome) (s : State) (top : Nat) (stk : Stk)
+    (vars : List (LoopVar × Val)) (cnt : Val) (q : Rat) (fl : Bool) (off : Int),
+    Sim K (stk.inner vars (pendOf lv names)) σ s → s.pc = (top : Int) →
+    getVar vars .counter = cnt → cnt.asNum = some (q, fl) → passes q = names.length →
+    (∀ p ∈ ix, getVar vars .incr = p.2) →
+    CodeAt img top (counterTest ++
+      [.jump .ifFalse (((bodyPreOf lv).length + (genBlock body).length + (postOf ix).length : Nat) + 2)] ++
+      (bodyPreOf lv ++ resolve (genBlock body) (top + 5 + (bodyPreOf lv).length)
+        ((top + 5 + ((bodyPreOf lv).length + (genBlock body).length + (postOf ix).length) + 1 : Nat) : Int) ++
+        postOf ix) ++
+      [.jump .always off] ++ [.endLoop]) →
+    ((top + 5 + ((bodyPreOf lv).length + (genBlock body).length + (postOf ix).length) : Nat) : Int) + off =
+      (top : Int) →
+    execPasses f (bindsOf lv names) ix body σ = (o, σ') → (o = .normal ∨ o = .brk) →
+    o = .normal ∧
+      Exec img s (At K (top + 5 + ((bodyPreOf lv).length + (genBlock body).length + (postOf ix).length) + 1 + 1)
+        stk [] σ')
+
+theorem count_zero : CountIter V img K 0 := by
+  intro body _ lv ix names σ σ' o s top stk vars cnt q fl off _ _ _ _ _ _ _ _ h ho
   simp only [execPasses, Prod.mk.injEq] at h
   rcases ho with rfl | rfl <;> simp at h
 
-theorem count_step (f : Nat) (ihB : BlockGoal img K f) (ihC : CountIter img K f) : CountIter img K (f + 1) := by
-  intro body hb σ σ' o s top stk vars ht cnt q fl off sim hpc hcnt hnum hc hoff h ho
+theorem count_step (f : Nat) (ihB : BlockGoal V img K f) (ihC : CountIter V img K f) : CountIter V img K (f + 1) := by
+  intro body hb lv ix names σ σ' o s top stk vars cnt q fl off sim hpc hcnt hnum hlenq hincr hc hoff h ho
   have hct := hc.left.left.left.left
   have hcj := hc.left.left.left.right.head
-  have hcb := hc.left.left.right.left
+  have hcpre := hc.left.left.right.left.left
+  have hcb := hc.left.left.right.left.right
   have hcp := hc.left.left.right.right
   have hcjb := hc.left.right.head
   have hce := hc.right.head
   have hlen : counterTest.length = 4 := rfl
-  have hlenp : (loopPost none).length = 4 := rfl
-  simp only [List.length_append, List.length_cons, List.length_nil, resolve_length, hlen, hlenp]
-    at hcj hcb hcp hcjb hce
+  simp only [List.length_append, List.length_cons, List.length_nil, resolve_length, hlen]
+    at hcj hcpre hcb hcp hcjb hce
   have hne : cnt = .none → False := by rintro rfl; simp [Val.asNum] at hnum
-  have hex := exec_counterTest vars ht cnt q fl sim hpc hct hcnt hnum
-  by_cases hq : 0 < q
-  · -- one more pass
-    rw [passes_pos q hq, List.replicate_succ, execPasses_succ] at h
-    simp only [List.foldl_nil] at h
-    have hjmp : ∀ t0, (At K (top + 4) (.loop vars ht :: stk) [] σ t0 ∧
+  have hex := exec_counterTest vars _ cnt q fl sim hpc hct hcnt hnum
+  cases names with
+  | cons n rest =>
+    -- one more pass
+    have hq : 0 < q := by
+      apply Classical.byContradiction
+      intro hc'
+      rw [passes_nonpos q hc'] at hlenq
+      simp at hlenq
+    rw [bindsOf_cons, execPasses_succ, foldl_bind] at h
+    have hjmp : ∀ t0, (At K (top + 4) (stk.inner vars (pendOf lv (n :: rest))) [] σ t0 ∧
         t0.regs .result = .bool (decide (0 < q))) →
-        Exec img t0 (At K (top + 5) (.loop vars ht :: stk) [] σ) := by
+        Exec img t0 (At K (top + 5) (stk.inner vars (pendOf lv (n :: rest))) [] σ) := by
       intro t0 ⟨ht0, hres⟩
       exact exec_jump .ifFalse _ _ (by simp) ht0.2 ht0.1 (idx hcj)
         (by simp [hres, hq, Val.truthy]; omega)
+    have hpreEx : ∀ t0, At K (top + 5) (stk.inner vars (pendOf lv (n :: rest))) [] σ t0 →
+        Exec img t0 (At K (top + 5 + (bodyPreOf lv).length) (stk.inner vars (pendOf lv rest)) []
+          (bindσ lv n σ)) := by
+      intro t0 ht0
+      exact exec_bodyPre lv n rest vars ht0.2 ht0.1 (hcpre.cast (by omega))
     rcases loopBody_cases h ho with ⟨s2, hbody, hrest⟩ | ⟨hbody, rfl⟩
-    · obtain ⟨c1, fl1, hsub1, hc1⟩ := sub_one_num cnt q fl hnum
-      have hbodyEx : ∀ t1, At K (top + 5) (.loop vars ht :: stk) [] σ t1 →
-          Exec img t1 (At K (top + 5 + (genBlock body).length) (.loop vars ht :: stk) [] s2) := by
+    · have hnf : o ≠ .fault "arithmetic error" := by rcases ho with rfl | rfl <;> simp
+      obtain ⟨s3, hnext, hrest⟩ := (stepIdx_cases hrest).resolve_right hnf
+      obtain ⟨c1, fl1, hsub1, hc1⟩ := sub_one_num cnt q fl hnum
+      have hbodyEx : ∀ t1, At K (top + 5 + (bodyPreOf lv).length) (stk.inner vars (pendOf lv rest)) []
+            (bindσ lv n σ) t1 →
+          Exec img t1 (At K (top + 5 + (bodyPreOf lv).length + (genBlock body).length)
+            (stk.inner vars (pendOf lv rest)) [] s2) := by
         intro t1 ht1
-        exact ihB body hb σ s2 .normal t1 _ _ _ ht1.2 ht1.1 (cat hcb) hbody (Or.inl rfl)
-      have hpostEx : ∀ t2, At K (top + 5 + (genBlock body).length) (.loop vars ht :: stk) [] s2 t2 →
-          Exec img t2 (At K (top + 5 + (genBlock body).length + 4)
-            (.loop (putVar vars .counter c1) ht :: stk) [] s2) := by
+        exact ihB body hb _ s2 .normal t1 _ _ _ ht1.2 ht1.1 (hcb.cast (by omega)) hbody (Or.inl rfl)
+      have hpostEx : ∀ t2, At K (top + 5 + (bodyPreOf lv).length + (genBlock body).length)
+            (stk.inner vars (pendOf lv rest)) [] s2 t2 →
+          Exec img t2 (At K (top + 5 + (bodyPreOf lv).length + (genBlock body).length + (postOf ix).length)
+            (stk.inner (putVar vars .counter c1) (pendOf lv rest)) [] s3) := by
         intro t2 ht2
-        exact exec_loopPost vars ht cnt c1 ht2.2 ht2.1 (cat hcp) hcnt hne hsub1
-      have hback : ∀ t3, At K (top + 5 + (genBlock body).length + 4)
-          (.loop (putVar vars .counter c1) ht :: stk) [] s2 t3 →
-          Exec img t3 (At K top (.loop (putVar vars .counter c1) ht :: stk) [] s2) := by
+        exact exec_passEnd ix vars _ cnt c1 s2 s3 ht2.2 ht2.1 (hcp.cast (by omega)) hcnt hne hsub1 hincr hnext
+      have hback : ∀ t3, At K (top + 5 + (bodyPreOf lv).length + (genBlock body).length + (postOf ix).length)
+          (stk.inner (putVar vars .counter c1) (pendOf lv rest)) [] s3 t3 →
+          Exec img t3 (At K top (stk.inner (putVar vars .counter c1) (pendOf lv rest)) [] s3) := by
         intro t3 ht3
-        exact exec_jump .always off top (by simp) ht3.2 ht3.1 (idx hcjb) (by simpa using hoff)
-      have hrestEx : ∀ t4, At K top (.loop (putVar vars .counter c1) ht :: stk) [] s2 t4 →
-          o = .normal ∧ Exec img t4 (At K (top + 5 + (genBlock body).length + 4 + 1 + 1) stk [] σ') := by
+        exact exec_jump .always off top (by simp) ht3.2 ht3.1 (idx hcjb) (by rw [← hoff]; congr 2; omega)
+      have hlen' : passes (q - 1) = rest.length := by
+        rw [passes_pos q hq] at hlenq
+        simpa using hlenq
+      have hrestEx : ∀ t4, At K top (stk.inner (putVar vars .counter c1) (pendOf lv rest)) [] s3 t4 →
+          o = .normal ∧ Exec img t4
+            (At K (top + 5 + ((bodyPreOf lv).length + (genBlock body).length + (postOf ix).length) + 1 + 1)
+              stk [] σ') := by
         intro t4 ht4
-        exact ihC body hb s2 σ' o t4 top stk _ ht c1 (q - 1) fl1 off ht4.2 ht4.1
-          (getVar_putVar vars .counter c1) hc1 hc hoff hrest ho
-      have hall := (((hex.trans hjmp).trans hbodyEx).trans hpostEx).trans hback
-      obtain ⟨t4, ht4⟩ : ∃ t4, At K top (.loop (putVar vars .counter c1) ht :: stk) [] s2 t4 := by
+        exact ihC body hb lv ix rest s3 σ' o t4 top stk _ c1 (q - 1) fl1 off ht4.2 ht4.1
+          (getVar_putVar vars .counter c1) hc1 hlen'
+          (fun p hp => by rw [getVar_putVar_other _ _ _ _ (by decide)]; exact hincr p hp) hc hoff hrest ho
+      have hall := ((((hex.trans hjmp).trans hpreEx).trans hbodyEx).trans hpostEx).trans hback
+      obtain ⟨t4, ht4⟩ : ∃ t4, At K top (stk.inner (putVar vars .counter c1) (pendOf lv rest)) [] s3 t4 := by
         obtain ⟨k, hk⟩ := hall
         exact ⟨_, hk⟩
       exact ⟨(hrestEx t4 ht4).1, hall.trans fun t ht => (hrestEx t ht).2⟩
-    · refine ⟨rfl, (hex.trans hjmp).trans fun t1 ht1 => ?_⟩
-      refine (ihB body hb σ σ' .brk t1 _ _ _ ht1.2 ht1.1 (cat hcb) hbody (Or.inr rfl)).trans
+    · refine ⟨rfl, ((hex.trans hjmp).trans hpreEx).trans fun t1 ht1 => ?_⟩
+      refine (ihB body hb _ σ' .brk t1 _ _ _ ht1.2 ht1.1 (hcb.cast (by omega)) hbody (Or.inr rfl)).trans
         fun t2 ht2 => ?_
       simp only [Target] at ht2
-      exact exec_endLoop vars ht ht2.2 ht2.1 (idx hce)
-  · -- the count is used up
-    rw [passes_nonpos q hq] at h
-    simp only [List.replicate_zero, execPasses, Prod.mk.injEq] at h
+      exact exec_endLoop vars _ ht2.2 ht2.1 (idx hce)
+  | nil =>
+    -- the count is used up
+    have hq : ¬ 0 < q := by
+      intro hq
+      rw [passes_pos q hq] at hlenq
+      simp at hlenq
+    simp only [bindsOf, List.map_nil, execPasses, Prod.mk.injEq] at h
     obtain ⟨rfl, rfl⟩ := h
     refine ⟨rfl, hex.trans fun t0 ⟨ht0, hres⟩ => ?_⟩
-    refine (exec_jump .ifFalse _ (top + 5 + (genBlock body).length + 4 + 1) (by simp) ht0.2 ht0.1
+    refine (exec_jump .ifFalse _
+      (top + 5 + ((bodyPreOf lv).length + (genBlock body).length + (postOf ix).length) + 1) (by simp) ht0.2 ht0.1
       (idx hcj) (by simp [hres, hq, Val.truthy]; omega)).trans fun t1 ht1 => ?_
-    exact exec_endLoop vars ht ht1.2 ht1.1 (idx hce)
+    exact exec_endLoop vars _ ht1.2 ht1.1 (idx hce)
 
 
 /-! ## the loop statement -/
@@ -581,22 +463,22 @@ theorem assembleLoop_length (pre test bodyPre : List Instr) (body : Code) (post 
   rw [← resolve_length _ 0 0, resolve_assembleLoop]
   simp only [List.length_append, List.length_cons, List.length_nil, resolve_length]
 
-def LoopGoal (img : Image) (K : Ctx) (f : Nat) : Prop :=
-  ∀ (hd : LoopHdr) (body : Block), LoopHdrOK hd → FragBlock body →
-  ∀ (σ σ' : S) (o : Outcome) (s : State) (pc exit : Nat) (stk : List Frame),
+def LoopGoal (V : String → Prop) (img : Image) (K : Ctx) (f : Nat) : Prop :=
+  ∀ (hd : LoopHdr) (body : Block), LoopHdrOK V hd → FragBlock V body →
+  ∀ (σ σ' : S) (o : Outcome) (s : State) (pc exit : Nat) (stk : Stk),
     Sim K stk σ s → s.pc = (pc : Int) →
     CodeAt img pc (resolve (genLoop hd (genBlock body)) pc exit) →
     execLoop f hd body σ = (o, σ') → (o = .normal ∨ o = .brk) →
     o = .normal ∧ Exec img s (At K (pc + (genLoop hd (genBlock body)).length) stk [] σ')
 
-theorem loop_zero : LoopGoal img K 0 := by
+theorem loop_zero : LoopGoal V img K 0 := by
   intro hd body _ _ σ σ' o s pc exit stk _ _ _ h ho
   simp only [execLoop, Prod.mk.injEq] at h
   rcases ho with rfl | rfl <;> simp at h
 
 /-- `repeat while c` and `repeat`: frame, iterations, frame dropped -/
-theorem loop_while (f : Nat) (ihW : WhileIter img K f) (c : Option Rv) (hcnd : CondOK c) (body : Block)
-    (hb : FragBlock body) (σ σ' : S) (o : Outcome) (s : State) (pc exit : Nat) (stk : List Frame)
+theorem loop_while (f : Nat) (ihW : WhileIter V img K f) (c : Option Rv) (hcnd : CondOK V c) (body : Block)
+    (hb : FragBlock V body) (σ σ' : S) (o : Outcome) (s : State) (pc exit : Nat) (stk : Stk)
     (sim : Sim K stk σ s) (hpc : s.pc = (pc : Int))
     (hc : CodeAt img pc (resolve (assembleLoop [] (testCode c) [] (genBlock body) []) pc exit))
     (h : execWhile f c body σ = (o, σ')) (ho : o = .normal ∨ o = .brk) :
@@ -619,100 +501,317 @@ theorem loop_while (f : Nat) (ihW : WhileIter img K f) (c : Option Rv) (hcnd : C
         pc + 1 + (testCode c).length + 1 + (genBlock body).length + 1 := by omega
     rw [e1, e2] at h2
     exact h2
-  have hiter := fun t (ht : At K (pc + 1) (.loop [] 0 :: stk) [] σ t) =>
-    ihW c body hcnd hb σ σ' o t (pc + 1) stk [] 0 _ ht.2 ht.1 hrest (by omega) h ho
+  have hiter := fun t (ht : At K (pc + 1) (stk.inner [] []) [] σ t) =>
+    ihW c body hcnd hb σ σ' o t (pc + 1) stk [] [] _ ht.2 ht.1 hrest (by omega) h ho
   have hl := exec_loop sim hpc hloop
-  obtain ⟨t, ht⟩ : ∃ t, At K (pc + 1) (.loop [] 0 :: stk) [] σ t := by
+  obtain ⟨t, ht⟩ : ∃ t, At K (pc + 1) (stk.inner [] []) [] σ t := by
     obtain ⟨k, hk⟩ := hl; exact ⟨_, hk⟩
   refine ⟨(hiter t ht).1, (hl.trans fun t ht => (hiter t ht).2).mono fun t2 ht2 => ⟨?_, ht2.2⟩⟩
   rw [ht2.1]; congr 1; omega
 
 
-theorem range_map_nil (k : Nat) :
-    ((List.range k).map fun _ => ([] : List (String × Val))) = List.replicate k [] := by
-  rw [List.map_const', List.length_range]
+/-- the code of a counted loop from its test on, as `CountIter` wants it -/
+theorem counted_rest {pc exit : Nat} (pre : List Instr) (lv : Option String) (ix : Option (String × Val))
+    (body : Block)
+    (hc : CodeAt img pc (resolve (assembleLoop pre counterTest (bodyPreOf lv) (genBlock body) (postOf ix))
+      pc exit)) :
+    img.code[pc]? = some .loop ∧ CodeAt img (pc + 1) pre ∧
+    CodeAt img (pc + 1 + pre.length) (counterTest ++
+      [.jump .ifFalse (((bodyPreOf lv).length + (genBlock body).length + (postOf ix).length : Nat) + 2)] ++
+      (bodyPreOf lv ++ resolve (genBlock body) (pc + 1 + pre.length + 5 + (bodyPreOf lv).length)
+        ((pc + 1 + pre.length + 5 + ((bodyPreOf lv).length + (genBlock body).length + (postOf ix).length) + 1
+          : Nat) : Int) ++ postOf ix) ++
+      [.jump .always (((1 + pre.length : Nat) : Int) -
+        ((1 + pre.length + 4 + 1 + ((bodyPreOf lv).length + (genBlock body).length + (postOf ix).length) : Nat)
+          : Int))] ++
+      [.endLoop]) := by
+  rw [resolve_assembleLoop] at hc
+  have hlen : counterTest.length = 4 := rfl
+  simp only [hlen] at hc
+  refine ⟨hc.left.left.left.left.left.head, hc.left.left.left.left.left.tail, ?_⟩
+  have e1 : pc + (1 + pre.length + 4 + 1 + (bodyPreOf lv).length) =
+      pc + 1 + pre.length + 5 + (bodyPreOf lv).length := by omega
+  have e2 : pc + (1 + pre.length + 4 + 1 + ((bodyPreOf lv).length + (genBlock body).length + (postOf ix).length) + 1) =
+      pc + 1 + pre.length + 5 + ((bodyPreOf lv).length + (genBlock body).length + (postOf ix).length) + 1 := by
+    omega
+  rw [e1, e2] at hc
+  have := hc
+  simp only [List.append_assoc, List.cons_append, List.nil_append] at this ⊢
+  have hh := (CodeAt.right (a := Instr.loop :: pre) this)
+  simp only [List.length_cons] at hh
+  exact hh.cast (by omega)
 
-/-- `repeat n`: frame, the count into the frame, the passes, frame dropped -/
-theorem loop_count (f : Nat) (ihC : CountIter img K f) (n : Rv) (hn : RvOK n) (body : Block)
-    (hb : FragBlock body) (σ σ' : S) (o : Outcome) (s : State) (pc exit : Nat) (stk : List Frame)
+/-- **a counted loop**: `LOOP`, the prologue `pre` (which leaves the count — and the increment of
+the index variable `ix` — in the loop frame, the names to visit on the evaluation stack, and the
+source-level state `σ1`), the passes, `END_LOOP` -/
+theorem loop_counted (f : Nat) (ihC : CountIter V img K f) (pre : List Instr) (lv : Option String)
+    (ix : Option (String × Val)) (body : Block) (hb : FragBlock V body) (names : List String)
+    (σ σ1 σ' : S) (o : Outcome) (s : State) (pc exit : Nat)
+    (stk : Stk) (sim : Sim K stk σ s) (hpc : s.pc = (pc : Int))
+    (hc : CodeAt img pc (resolve (assembleLoop pre counterTest (bodyPreOf lv) (genBlock body) (postOf ix))
+      pc exit))
+    (hpre : CodeAt img (pc + 1) pre → ∀ t, At K (pc + 1) (stk.inner [] []) [] σ t →
+      Exec img t (fun t' => ∃ vars cnt q fl,
+        At K (pc + 1 + pre.length) (stk.inner vars (pendOf lv names)) [] σ1 t' ∧
+        getVar vars .counter = cnt ∧ cnt.asNum = some (q, fl) ∧ (∀ p ∈ ix, getVar vars .incr = p.2) ∧
+        passes q = names.length))
+    (h : execPasses f (bindsOf lv names) ix body σ1 = (o, σ')) (ho : o = .normal ∨ o = .brk) :
+    o = .normal ∧
+      Exec img s (At K (pc + (assembleLoop pre counterTest (bodyPreOf lv) (genBlock body) (postOf ix)).length)
+        stk [] σ') := by
+  obtain ⟨hloop, hcpre, hrest⟩ := counted_rest pre lv ix body hc
+  rw [assembleLoop_length]
+  have hlen : counterTest.length = 4 := rfl
+  simp only [hlen]
+  have hl := exec_loop sim hpc hloop
+  have hall := hl.trans (hpre hcpre)
+  have hiter : ∀ t', (∃ vars cnt q fl,
+        At K (pc + 1 + pre.length) (stk.inner vars (pendOf lv names)) [] σ1 t' ∧
+        getVar vars .counter = cnt ∧ cnt.asNum = some (q, fl) ∧ (∀ p ∈ ix, getVar vars .incr = p.2) ∧
+        passes q = names.length) →
+      o = .normal ∧ Exec img t'
+        (At K (pc + 1 + pre.length + 5 + ((bodyPreOf lv).length + (genBlock body).length + (postOf ix).length)
+          + 1 + 1) stk [] σ') := by
+    intro t' ⟨vars, cnt, q, fl, ht', hcnt, hnum, hincr, hk⟩
+    exact ihC body hb lv ix names σ1 σ' o t' _ stk vars cnt q fl _ ht'.2 ht'.1 hcnt hnum hk hincr hrest
+      (by omega) h ho
+  obtain ⟨t2, ht2⟩ : ∃ t2, (∃ vars cnt q fl,
+        At K (pc + 1 + pre.length) (stk.inner vars (pendOf lv names)) [] σ1 t2 ∧
+        getVar vars .counter = cnt ∧ cnt.asNum = some (q, fl) ∧ (∀ p ∈ ix, getVar vars .incr = p.2) ∧
+        passes q = names.length) := by
+    obtain ⟨k', hk'⟩ := hall; exact ⟨_, hk'⟩
+  refine ⟨(hiter t2 ht2).1, (hall.trans fun t ht => (hiter t ht).2).mono fun t3 ht3 => ⟨?_, ht3.2⟩⟩
+  rw [ht3.1]; congr 1; omega
+
+/-- the passes of a loop that only counts -/
+theorem passes_replicate (k : Nat) : (List.replicate k "").length = k := List.length_replicate
+
+/-- `repeat n` -/
+theorem loop_count (f : Nat) (ihRv : RvToGoal V img K f) (ihC : CountIter V img K f) (n : Rv) (hn : RvC V n)
+    (body : Block)
+    (hb : FragBlock V body) (σ σ' : S) (o : Outcome) (s : State) (pc exit : Nat) (stk : Stk)
     (sim : Sim K stk σ s) (hpc : s.pc = (pc : Int))
     (hc : CodeAt img pc (resolve (genLoop (.count n) (genBlock body)) pc exit))
     (h : execLoop (f + 1) (.count n) body σ = (o, σ')) (ho : o = .normal ∨ o = .brk) :
     o = .normal ∧
       Exec img s (At K (pc + (genLoop (.count n) (genBlock body)).length) stk [] σ') := by
   simp only [genLoop] at hc ⊢
-  rw [resolve_assembleLoop] at hc
-  rw [assembleLoop_length]
-  have hlen : counterTest.length = 4 := rfl
-  have hlenp : (loopPost none).length = 4 := rfl
-  simp only [List.nil_append, List.length_nil, Nat.add_zero, Nat.zero_add, hlen, hlenp]
-    at hc ⊢
   simp only [execLoop] at h
   split at h
   · rename_i o' he
     simp only [Prod.mk.injEq] at h
     obtain ⟨rfl, rfl⟩ := h
-    exact (error_excluded hn he ho).elim
+    exact (errorC_excluded he ho).elim
   · rename_i x σ1 he
     split at h
     · rename_i q hq
-      obtain ⟨fl, hnum⟩ : ∃ fl, x.asNum = some (q, fl) := by
-        simp only [numToCount, Option.map_eq_some_iff] at hq
-        obtain ⟨⟨q', fl⟩, h1, h2⟩ := hq
-        exact ⟨fl, by rw [h1]; simp at h2; rw [h2]⟩
-      have h' : execPasses f (List.replicate (passes q) []) body σ1 = (o, σ') := by
-        rw [← range_map_nil]; exact h
-      have hloop := hc.left.left.left.left.left.head
-      have hpre := hc.left.left.left.left.left.tail
-      have hrest : CodeAt img (pc + 1 + (genRv n (.to counter)).length)
-          (counterTest ++ [.jump .ifFalse (((genBlock body).length + 4 : Nat) + 2)] ++
-            (resolve (genBlock body) (pc + 1 + (genRv n (.to counter)).length + 5)
-              ((pc + 1 + (genRv n (.to counter)).length + 5 + (genBlock body).length + 4 + 1 : Nat) : Int) ++
-              loopPost none) ++
-            [.jump .always (((1 + (genRv n (.to counter)).length : Nat) : Int) -
-              ((1 + (genRv n (.to counter)).length + 4 + 1 + ((genBlock body).length + 4) : Nat) : Int))] ++
-            [.endLoop]) := by
-        have h1 := hc.left.left.left.right
-        have h2 := hc.left.left.right
-        have h3 := hc.left.right
-        have h4 := hc.right
-        simp only [List.length_append, List.length_cons, List.length_nil, resolve_length, hlen, hlenp]
-          at h1 h2 h3 h4
-        have e1 : pc + (1 + (genRv n (.to counter)).length + 4 + 1) =
-            pc + 1 + (genRv n (.to counter)).length + 5 := by omega
-        have e2 : pc + (1 + (genRv n (.to counter)).length + 4 + 1 + ((genBlock body).length + 4) + 1) =
-            pc + 1 + (genRv n (.to counter)).length + 5 + (genBlock body).length + 4 + 1 := by omega
-        rw [e1, e2] at hc
-        have := hc
-        simp only [List.append_assoc, List.cons_append, List.nil_append] at this ⊢
-        have hh := (CodeAt.right (a := Instr.loop :: genRv n (.to counter)) this)
-        simp only [List.length_cons] at hh
-        have e3 : pc + ((genRv n (.to counter)).length + 1) = pc + 1 + (genRv n (.to counter)).length := by
-          omega
-        rw [e3] at hh
-        exact hh
-      have hl := exec_loop sim hpc hloop
-      have hcnt := fun t (ht : At K (pc + 1) (.loop [] 0 :: stk) [] σ t) =>
-        exec_toCounter n hn [] 0 ht.2 ht.1 hpre he
-      obtain ⟨t, ht⟩ : ∃ t, At K (pc + 1) (.loop [] 0 :: stk) [] σ t := by
-        obtain ⟨k, hk⟩ := hl; exact ⟨_, hk⟩
-      obtain ⟨rfl, _⟩ := hcnt t ht
-      have hiter := fun t (ht : At K (pc + 1 + (genRv n (.to counter)).length)
-          (.loop (putVar [] .counter x) 0 :: stk) [] σ1 t) =>
-        ihC body hb σ1 σ' o t _ stk _ 0 x q fl _ ht.2 ht.1 (getVar_putVar [] .counter x) hnum hrest
-          (by omega) h' ho
-      have hall := hl.trans fun t ht => (hcnt t ht).2
-      obtain ⟨t2, ht2⟩ : ∃ t2, At K (pc + 1 + (genRv n (.to counter)).length)
-          (.loop (putVar [] .counter x) 0 :: stk) [] σ1 t2 := by
-        obtain ⟨k, hk⟩ := hall; exact ⟨_, hk⟩
-      refine ⟨(hiter t2 ht2).1, (hall.trans fun t ht => (hiter t ht).2).mono fun t3 ht3 => ⟨?_, ht3.2⟩⟩
-      rw [ht3.1]; congr 1; omega
+      obtain ⟨fl, hnum⟩ := numToCount_num hq
+      rw [passCount_eq, ← bindsOf_none] at h
+      refine loop_counted f ihC _ none none body hb _ σ σ1 σ' o s pc exit stk sim hpc hc ?_ h ho
+      intro hcpre t ht
+      have hcnt := rv_toLoopVar ihRv n hn .counter [] _ ht.2 ht.1 hcpre he
+      exact hcnt.mono fun t' ht' => ⟨_, x, q, fl, ht', getVar_putVar [] .counter x, hnum, by simp,
+        (passes_replicate _).symm⟩
     · simp only [Prod.mk.injEq] at h
       obtain ⟨rfl, rfl⟩ := h
       rcases ho with h | h <;> simp at h
 
-theorem loop_step (f : Nat) (ihW : WhileIter img K f) (ihC : CountIter img K f) : LoopGoal img K (f + 1) := by
+/-- `repeat with v from a to b` -/
+theorem loop_range (f : Nat) (ihRv : RvToGoal V img K f) (ihC : CountIter V img K f) (v : String) (a b : Rv)
+    (ha : RvC V a) (hbd : RvC V b)
+    (body : Block) (hb : FragBlock V body) (σ σ' : S) (o : Outcome) (s : State) (pc exit : Nat)
+    (stk : Stk) (sim : Sim K stk σ s) (hpc : s.pc = (pc : Int))
+    (hc : CodeAt img pc (resolve (genLoop (.range v a b) (genBlock body)) pc exit))
+    (h : execLoop (f + 1) (.range v a b) body σ = (o, σ')) (ho : o = .normal ∨ o = .brk) :
+    o = .normal ∧
+      Exec img s (At K (pc + (genLoop (.range v a b) (genBlock body)).length) stk [] σ') := by
+  simp only [genLoop] at hc ⊢
+  simp only [execLoop] at h
+  split at h
+  · rename_i o' he
+    simp only [Prod.mk.injEq] at h
+    obtain ⟨rfl, rfl⟩ := h
+    exact (errorC_excluded he ho).elim
+  · rename_i x σ1 hea
+    split at h
+    · rename_i o' he
+      simp only [Prod.mk.injEq] at h
+      obtain ⟨rfl, rfl⟩ := h
+      exact (errorC_excluded he ho).elim
+    · rename_i y σ2 heb
+      split at h
+      · rename_i p q hp hq
+        rw [passCount_eq, ← bindsOf_none] at h
+        refine loop_counted f ihC _ none (some (v, if q < p then .int (-1) else .int 1)) body hb _ σ
+          (σ2.assign v x) σ' o s pc exit stk sim hpc hc ?_ h ho
+        intro hcpre t ht
+        simp only [indexVarRange, if_true] at hcpre ⊢
+        refine (rv_toLoopVar ihRv a ha .first [] _ ht.2 ht.1 hcpre.left.left.left hea).trans fun t1 ht1 => ?_
+        refine (rv_toLoopVar ihRv b hbd .last _ _ ht1.2 ht1.1 hcpre.left.left.right heb).trans fun t2 ht2 => ?_
+        have hfirst : getVar (putVar (putVar [] .first x) .last y) .first = x := by
+          rw [getVar_putVar_other _ _ _ _ (by decide), getVar_putVar]
+        have hlast : getVar (putVar (putVar [] .first x) .last y) .last = y := getVar_putVar _ _ _
+        have hm := hcpre.left.right.head
+        simp only [List.length_append] at hm
+        refine (exec_moveLVVar .first v ht2.2 ht2.1 (idx hm)).trans fun t3 ht3 => ?_
+        rw [hfirst] at ht3
+        have hcc := hcpre.right
+        simp only [List.length_append, List.length_cons, List.length_nil] at hcc
+        refine (exec_calcCounter x y p q ht3.2 ht3.1 (cat hcc) hfirst hlast hp hq).mono
+          fun t4 ⟨vars', fl, ht4, hcnt, hinc⟩ => ?_
+        refine ⟨vars', _, _, fl, ⟨?_, ht4.2⟩, rfl, hcnt, ?_, (passes_replicate _).symm⟩
+        · rw [ht4.1]; simp [calcCounter, testOp, incCounter]; omega
+        · intro p' hp'
+          simp only [Option.mem_def, Option.some.injEq] at hp'
+          subst hp'
+          exact hinc
+      · rename_i hnn
+        simp only [Prod.mk.injEq] at h
+        obtain ⟨rfl, rfl⟩ := h
+        rcases ho with h | h <;> simp at h
+
+/-- the counted forms with a `with` clause: `repeat n with v from a to b`, `repeat n with v cycle [s]` -/
+theorem loop_with (f : Nat) (ihRvs : RvToGoals V img K f) (ihC : CountIter V img K f) (n : Rv) (hn : RvC V n)
+    (wc : WithClause)
+    (hw : WithOK V wc) (body : Block) (hb : FragBlock V body) (σ σ' : S) (o : Outcome) (s : State)
+    (pc exit : Nat) (stk : Stk) (sim : Sim K stk σ s) (hpc : s.pc = (pc : Int))
+    (hc : CodeAt img pc (resolve (assembleLoop (genRv n (.to counter) ++ withCode wc) counterTest []
+      (genBlock body) (loopPost (some (withVarOf wc)))) pc exit))
+    (h : (match evalRv f n σ with
+        | .error o => (o, σ)
+        | .ok (cnt, s1) =>
+          match numToCount cnt with
+          | none => (.fault "count is not a number", s1)
+          | some q =>
+            match evalWith f wc cnt s1 with
+            | .error o => (o, s1)
+            | .ok (none, s2) => (.fault "arithmetic error", s2)
+            | .ok (some i, s2) =>
+              execPasses f (List.replicate (passCount q) []) (some (withVarOf wc, i)) body s2) = (o, σ'))
+    (ho : o = .normal ∨ o = .brk) :
+    o = .normal ∧
+      Exec img s (At K (pc + (assembleLoop (genRv n (.to counter) ++ withCode wc) counterTest []
+        (genBlock body) (loopPost (some (withVarOf wc)))).length) stk [] σ') := by
+  split at h
+  · rename_i o' he
+    simp only [Prod.mk.injEq] at h
+    obtain ⟨rfl, rfl⟩ := h
+    exact (errorC_excluded he ho).elim
+  · rename_i cnt σ1 he
+    split at h
+    · simp only [Prod.mk.injEq] at h
+      obtain ⟨rfl, rfl⟩ := h
+      rcases ho with h | h <;> simp at h
+    · rename_i q hq
+      obtain ⟨fl, hnum⟩ := numToCount_num hq
+      split at h
+      · rename_i o' hew
+        simp only [Prod.mk.injEq] at h
+        obtain ⟨rfl, rfl⟩ := h
+        have := evalWith_error f cnt σ1 _ hew
+        rcases ho with rfl | rfl <;> simp at this
+      · simp only [Prod.mk.injEq] at h
+        obtain ⟨rfl, rfl⟩ := h
+        rcases ho with h | h <;> simp at h
+      · rename_i i σ2 hew
+        rw [passCount_eq, ← bindsOf_none] at h
+        refine loop_counted f ihC _ none (some (withVarOf wc, i)) body hb _ σ σ2 σ' o s pc exit stk sim hpc hc
+          ?_ h ho
+        intro hcpre t ht
+        refine (rv_toLoopVar (ihRvs f (Nat.le_refl f)) n hn .counter [] _ ht.2 ht.1 hcpre.left he).trans
+          fun t1 ht1 => ?_
+        refine (exec_with ihRvs wc hw cnt q fl ht1.2 ht1.1 hcpre.right (getVar_putVar [] .counter cnt) hnum hew).mono
+          fun t2 ⟨vars', ht2, hc2, hi2⟩ => ?_
+        refine ⟨vars', cnt, q, fl, ⟨?_, ht2.2⟩, hc2, hnum, ?_, (passes_replicate _).symm⟩
+        · rw [ht2.1]; simp only [List.length_append, counter]; omega
+        · intro p' hp'
+          simp only [Option.mem_def, Option.some.injEq] at hp'
+          subst hp'
+          exact hi2
+
+theorem withVar_eq (w : Option WithClause) : withVar w = w.map withVarOf := by
+  cases w with
+  | none => rfl
+  | some wc => cases wc <;> rfl
+
+theorem passes_nat (n : Nat) : passes (((n : Int)) : Rat) = n := by
+  have : Loops.passes (((n : Int)) : Rat) = n := by
+    have := Loops.passes_intCast (n : Int)
+    simpa using this
+  exact this
+
+/-- **a loop over names**: `LOOP`, the counter set to 0, the discovery code `disc` (which pushes the
+names `names` and counts them, leaving the source-level state `σd`), the `with` clause, the passes —
+each starting with the next name popped into `lv` —, `END_LOOP` -/
+theorem loop_names (g : Nat) (ihRvs : RvToGoals V img K g) (ihC : CountIter V img K g) (disc : List Instr)
+    (lv : String)
+    (w : Option WithClause) (hw : OWithOK V w) (body : Block) (hb : FragBlock V body) (names : List String)
+    (σ σd σ' : S) (o : Outcome) (s : State) (pc exit : Nat) (stk : Stk)
+    (sim : Sim K stk σ s) (hpc : s.pc = (pc : Int))
+    (hc : CodeAt img pc (resolve (assembleLoop ([.moveq (.int 0) counter] ++ disc ++ withClause w) counterTest
+      [.pop (.var lv)] (genBlock body) (loopPost (withVar w))) pc exit))
+    (hdisc : ∀ (vars : List (LoopVar × Val)) (t : State) (p : Nat), Sim K (stk.inner vars []) σ t →
+      t.pc = (p : Int) → CodeAt img p disc → getVar vars .counter = .int 0 →
+      Exec img t (fun t' => ∃ vars', At K (p + disc.length) (stk.inner vars' (names.map .str)) [] σd t' ∧
+        getVar vars' .counter = .int names.length))
+    (h : iterLoop (g + 1) names lv w body σd = (o, σ')) (ho : o = .normal ∨ o = .brk) :
+    o = .normal ∧ Exec img s (At K (pc + (assembleLoop ([.moveq (.int 0) counter] ++ disc ++ withClause w)
+      counterTest [.pop (.var lv)] (genBlock body) (loopPost (withVar w))).length) stk [] σ') := by
+  have hnum : (Val.int names.length).asNum = some (((names.length : Int) : Rat), false) := rfl
+  -- the counter and the names
+  have hfirst : CodeAt img (pc + 1) ([.moveq (.int 0) counter] ++ disc ++ withClause w) →
+      ∀ t, At K (pc + 1) (stk.inner [] []) [] σ t →
+      Exec img t (fun t' => ∃ vars', At K (pc + 1 + 1 + disc.length) (stk.inner vars' (names.map .str)) [] σd t' ∧
+        getVar vars' .counter = .int names.length) := by
+    intro hcpre t ht
+    refine (exec_moveqLV (.int 0) .counter ht.2 ht.1 hcpre.left.left.head).trans fun t1 ht1 => ?_
+    exact hdisc _ t1 _ ht1.2 ht1.1 hcpre.left.right (getVar_putVar _ _ _)
+  simp only [iterLoop] at h
+  cases w with
+  | none =>
+    simp only at h
+    refine loop_counted g ihC _ (some lv) none body hb names σ σd σ' o s pc exit stk sim hpc hc ?_ h ho
+    intro hcpre t ht
+    refine (hfirst hcpre t ht).mono fun t' ⟨vars', ht', hcnt⟩ => ?_
+    refine ⟨vars', _, _, false, ⟨?_, ht'.2⟩, hcnt, hnum, by simp, passes_nat _⟩
+    rw [ht'.1]; simp [withClause]; omega
+  | some wc =>
+    have hwc : WithOK V wc := hw
+    simp only at h
+    split at h
+    · rename_i o' hew
+      simp only [Prod.mk.injEq] at h
+      obtain ⟨rfl, rfl⟩ := h
+      have := evalWith_error g _ σd _ hew
+      rcases ho with rfl | rfl <;> simp at this
+    · simp only [Prod.mk.injEq] at h
+      obtain ⟨rfl, rfl⟩ := h
+      rcases ho with h | h <;> simp at h
+    · rename_i i σ2 hew
+      have hpost : loopPost (withVar (some wc)) = postOf (some (withVarOf wc, i)) := by
+        rw [withVar_eq]; rfl
+      rw [hpost] at hc ⊢
+      refine loop_counted g ihC _ (some lv) (some (withVarOf wc, i)) body hb names σ σ2 σ' o s pc exit stk sim hpc
+        hc ?_ h ho
+      intro hcpre t ht
+      refine (hfirst hcpre t ht).trans fun t1 ⟨vars1, ht1, hcnt1⟩ => ?_
+      have hcw : CodeAt img (pc + 1 + 1 + disc.length) (withCode wc) := by
+        have := hcpre.right
+        rw [withClause_some] at this
+        exact this.cast (by simp; omega)
+      refine (exec_with ihRvs wc hwc (.int names.length) _ false ht1.2 ht1.1 hcw hcnt1 hnum hew).mono
+        fun t2 ⟨vars2, ht2, hc2, hi2⟩ => ?_
+      refine ⟨vars2, _, _, false, ⟨?_, ht2.2⟩, hc2, hnum, ?_, passes_nat _⟩
+      · rw [ht2.1]; simp [withClause_some]; omega
+      · intro p' hp'
+        simp only [Option.mem_def, Option.some.injEq] at hp'
+        subst hp'
+        exact hi2
+
+theorem loop_step (f : Nat) (ihRvs : RvToGoals V img K f) (ihW : WhileIter V img K f) (ihC : CountIter V img K f)
+    (ihC1 : ∀ g, g + 1 = f → CountIter V img K g) : LoopGoal V img K (f + 1) := by
   intro hd body hhd hb σ σ' o s pc exit stk sim hpc hc h ho
+  have ihRv := ihRvs f (Nat.le_refl f)
   cases hd with
   | forever =>
     exact loop_while f ihW none trivial body hb σ σ' o s pc exit stk sim hpc hc
@@ -720,11 +819,67 @@ theorem loop_step (f : Nat) (ihW : WhileIter img K f) (ihC : CountIter img K f) 
   | while_ c =>
     exact loop_while f ihW (some c) hhd body hb σ σ' o s pc exit stk sim hpc hc
       (by simpa only [execLoop] using h) ho
-  | count n => exact loop_count f ihC n hhd body hb σ σ' o s pc exit stk sim hpc hc h ho
-  | _ => exact absurd hhd (by simp [LoopHdrOK])
+  | count n => exact loop_count f ihRv ihC n hhd body hb σ σ' o s pc exit stk sim hpc hc h ho
+  | range v a b => exact loop_range f ihRv ihC v a b hhd.1 hhd.2 body hb σ σ' o s pc exit stk sim hpc hc h ho
+  | interp n v a b =>
+    exact loop_with f ihRvs ihC n hhd.1 (.fromTo v a b) hhd.2 body hb σ σ' o s pc exit stk sim hpc hc
+      (by simp only [execLoop] at h; exact h) ho
+  | cycle n v start =>
+    exact loop_with f ihRvs ihC n hhd.1 (.cycle v start) hhd.2 body hb σ σ' o s pc exit stk sim hpc hc
+      (by simp only [execLoop] at h; exact h) ho
+  | all lv w =>
+    simp only [execLoop] at h
+    cases f with
+    | zero => simp only [iterLoop, Prod.mk.injEq] at h; rcases ho with rfl | rfl <;> simp at h
+    | succ g =>
+      refine loop_names g (fun g' hg' => ihRvs g' (Nat.le_succ_of_le hg')) (ihC1 g rfl) iterLights lv w hhd body hb _ σ _ σ' o s pc exit stk sim hpc hc ?_ h ho
+      intro vars t p ht hp hcd hcnt
+      refine (exec_iterSets (o := .light) (Or.inl rfl) (.loopVar .current) (Or.inl rfl) 0 ht hp hcd hcnt).mono
+        fun t' ⟨vars', ht', hc'⟩ => ⟨vars', by simpa [namesOf, iterLights, iterSets, iterSkeleton_length] using ht',
+          by simpa [namesOf] using hc'⟩
+  | groups lv w =>
+    simp only [execLoop] at h
+    cases f with
+    | zero => simp only [iterLoop, Prod.mk.injEq] at h; rcases ho with rfl | rfl <;> simp at h
+    | succ g =>
+      refine loop_names g (fun g' hg' => ihRvs g' (Nat.le_succ_of_le hg')) (ihC1 g rfl) (iterSets .group) lv w hhd body hb _ σ _ σ' o s pc exit stk sim hpc hc
+        ?_ h ho
+      intro vars t p ht hp hcd hcnt
+      refine (exec_iterSets (o := .group) (Or.inr (Or.inl rfl)) (.reg .result) (Or.inr rfl) 0 ht hp hcd hcnt).mono
+        fun t' ⟨vars', ht', hc'⟩ => ⟨vars', by simpa [namesOf, iterLights, iterSets, iterSkeleton_length] using ht',
+          by simpa [namesOf] using hc'⟩
+  | locations lv w =>
+    simp only [execLoop] at h
+    cases f with
+    | zero => simp only [iterLoop, Prod.mk.injEq] at h; rcases ho with rfl | rfl <;> simp at h
+    | succ g =>
+      refine loop_names g (fun g' hg' => ihRvs g' (Nat.le_succ_of_le hg')) (ihC1 g rfl) (iterSets .location) lv w hhd body hb _ σ _ σ' o s pc exit stk sim hpc hc
+        ?_ h ho
+      intro vars t p ht hp hcd hcnt
+      refine (exec_iterSets (o := .location) (Or.inr (Or.inr rfl)) (.reg .result) (Or.inr rfl) 0 ht hp hcd
+        hcnt).mono
+        fun t' ⟨vars', ht', hc'⟩ => ⟨vars', by simpa [namesOf, iterLights, iterSets, iterSkeleton_length] using ht',
+          by simpa [namesOf] using hc'⟩
+  | iter items lv w =>
+    simp only [execLoop] at h
+    split at h
+    · rename_i o' he
+      simp only [Prod.mk.injEq] at h
+      obtain ⟨rfl, rfl⟩ := h
+      have := iterNames_error items f σ _ he
+      rcases ho with rfl | rfl <;> simp at this
+    · rename_i names σ1 he
+      cases f with
+      | zero => simp [iterNames] at he
+      | succ g =>
+        refine loop_names g (fun g' hg' => ihRvs g' (Nat.le_succ_of_le hg')) (ihC1 g rfl) (iterItems items) lv w hhd.2 body hb names σ σ1 σ' o s pc exit stk sim
+          hpc hc ?_ h ho
+        intro vars t p ht hp hcd hcnt
+        refine (exec_iterItems items hhd.1 (g + 1) ihRvs σ σ1 names vars [] t p 0 he ht hp hcd hcnt).mono
+          fun t' ⟨vars', ht', hc'⟩ => ⟨vars', by simpa using ht', by simpa using hc'⟩
 
-theorem stmt_repeat (f : Nat) (ihL : LoopGoal img K f) (hd : LoopHdr) (body : Block) (hhd : LoopHdrOK hd)
-    (hb : FragBlock body) : StmtGoal img K (.repeat_ hd body) (f + 1) := by
+theorem stmt_repeat (f : Nat) (ihL : LoopGoal V img K f) (hd : LoopHdr) (body : Block) (hhd : LoopHdrOK V hd)
+    (hb : FragBlock V body) : StmtGoal img K (.repeat_ hd body) (f + 1) := by
   intro σ σ' o s pc exit stk sim hpc hc h ho
   simp only [genStmt] at hc ⊢
   simp only [execStmt] at h
